@@ -93,7 +93,7 @@ def match_known(prop: str, item: Item, known: dict) -> dict | None:
 def finish(rep: Report, seed: int = 0) -> int:
     """Print the verdict, write evidence (+ violations replay file), return the exit status."""
     known = load_known()
-    ev_dir = os.path.join(VERIF_ROOT, "evidence")
+    ev_dir = os.environ.get("CSA_EVIDENCE_DIR") or os.path.join(VERIF_ROOT, "evidence")
     os.makedirs(ev_dir, exist_ok=True)
     viol_path = os.path.join(ev_dir, f"{rep.prop}.violations.json")
 
